@@ -76,14 +76,16 @@ QuantityOf(s) == CASE s = "w_tilde" -> "noise"
                    [] OTHER -> "noise"
 RelevantQ(x) == { QuantityOf(s) : s \in ToSet(SlotsOf(x)) \ { "use_w_tilde" } }
 
-MapperSlots == { "w_tilde", "relocated_grid", "mapper_list", "data_vector_mapper", "curvature_matrix_mapper_diag",
+MapperSlots == { "relocated_grid", "mapper_list", "data_vector_mapper", "curvature_matrix_mapper_diag",
                  "mapper_operated_mapping_matrix_dict", "regularization_matrix", "log_det_regularization_matrix_term" }
 FuncSlots == { "linear_func_operated_mapping_matrix_dict", "data_linear_func_matrix_dict" }
 
-\* does fit f have the quantity that slot s would hold?  (no inversion / no mapper / no function list: it does not)
-Avail(f, s) == /\ f.inv
-               /\ (s \in MapperSlots => f.nm >= 1)
-               /\ (s \in FuncSlots => f.nf >= 1)
+\* does fit f have the quantity that slot s would hold?  (no inversion / no mapper / no function list: it does not;
+\* the noise map, from which the w-tilde slot is made, belongs to the fit itself and is always there)
+Avail(f, s) == \/ s = "w_tilde"
+               \/ /\ f.inv
+                  /\ (s \in MapperSlots => f.nm >= 1)
+                  /\ (s \in FuncSlots => f.nf >= 1)
 
 \* the content of that quantity: id, shape class and (for lists / dicts) the number of entries
 Val(f, s) ==
@@ -108,6 +110,7 @@ SlotSound(s, f0, f1, v) ==
 \* the two fits have the same make-up (the situation every docstring talks about: two instances of one model)
 Regular(x, f0, f1) == /\ f0.inv /\ f1.inv /\ f0.nm = f1.nm /\ f0.nf = f1.nf /\ f0.sh = f1.sh
                       /\ (x = "G" => f0.nm = 1)
+                      /\ (x = "W" => f0.nm >= 1)
                       /\ (x = "L" => f0.nm >= 1)
 AllAgree(x, f0, f1) == \A s \in ToSet(SlotsOf(x)) \ { "use_w_tilde" } : Agreed(s, f0, f1)
 
@@ -183,7 +186,6 @@ SameShape(f0, f1) == f0.sh = f1.sh
 \* set_w_tilde_imaging: the noise maps
 CodeW(f0, f1, old) ==
   IF ~ f0.inv \/ f0.nm = 0 THEN Res(Cleared("W"), FALSE)
-  ELSE IF ~ AsBuilt /\ (~ f1.inv \/ f1.nm = 0) THEN Res(Cleared("W"), FALSE)      \* pinned tree: fit_1 is not looked at
   ELSE IF ~ SameShape(f0, f1) THEN Res(Cleared("W"), AsBuilt)                      \* pinned tree: subtracts arrays of different shapes
   ELSE IF SameId("noise", f0, f1) THEN Res(FillFrom("W", f0, { "w_tilde" }), FALSE)
   ELSE Res(Cleared("W"), FALSE)
